@@ -107,7 +107,9 @@ CHECKS = {
         "constructed table, runs to completion (no probe diverges, 'table full' is never raised, through any number of in-place "
         "doublings with wrap-around clusters) and returns exactly the answers of a finite map, values staying attached to keys; "
         "doubling preserves contents. The model is tied to util::AutoProbing by op-by-op differential runs (answers, growth points, "
-        "final bucket layout) and the implementation's real bucket arrays are checked against the Lean invariant.",
+        "final bucket layout) and the implementation's real bucket arrays are checked against the Lean invariant. util::MutableVocab "
+        "(word ids) is modelled on top of the table and proved to hand out first-occurrence ids with the stored string attached to its id "
+        "(mvocab_refines, mvocab_ids, mvocab_strings_attached), tied to the real class op by op.",
    note="Trusted: Lean kernel + standard axioms; zero-fill of the reallocated half (mremap/calloc) is assumed by the model; "
         "hand-written model tied by bounded differential execution.",
    technique="Lean 4 proof (history_refines via probing invariant + doubling loop invariant) + correspondence run",
@@ -237,13 +239,16 @@ CHECKS = {
         "uint16/int16/uint32/int32/uint64/int64 value (incl. the 8/16-byte SSE stores) and every float/double (all sign, digit "
         "count and decimal point combinations double-conversion can produce, plus inf/NaN, including the StringBuilder's NUL), with "
         "kBytes regenerated from the headers on every run; together with the termination/in-bounds theorems of the other "
-        "properties (C13 probing, C02 reader, C07 wrap_lines, C14 Murmur reads, C08 record count/back(), C17 tiling). The model's "
+        "properties (C13 probing, C02 reader, C07 wrap_lines, C14 Murmur reads, C08 record count/back(), C17 tiling); and for every "
+        "history of Allocate/Continue calls on util::Pool (cache's answers, vocabulary strings) the allocations lie inside malloc'ed "
+        "pages, never share a byte, never move, Continue's memcpy stays in bounds and the page-size shift stays below 64 (pool_* "
+        "theorems, model tied to the real class by pattern-filled op sequences under ASan). The model's "
         "byte counts are tied to util::ToString by sentinel-buffer measurement. Everything else - all 24 executables on an "
         "adversarial corpus under ASan+UBSan with timeouts - is observation, not proof.",
    note="Trusted: Lean kernel + standard axioms for the listed obligations; double-conversion's digit/exponent ranges are a parameter; "
         "memory safety of the remaining code is only observed by sanitizers on the corpus (UBSan checks for shift-base, signed "
         "overflow, alignment and vptr are disabled, see DESIGN).",
-   technique="Lean 4 proof of the formatter bounds over generated kBytes + sanitizer/timeout corpus on all executables",
+   technique="Lean 4 proof of the formatter bounds over generated kBytes and of util::Pool's allocation invariants + sanitizer/timeout corpus on all executables",
    design="6/C20"),
 }
 
